@@ -48,12 +48,12 @@ CLAIMED["C20"] = {
 
 T = "Coq proof over regenerated facts + vm_compute model/impl correspondence"
 CLAIMED["C02"] = {
-    "text": "C02_leaf_roundtrip_partial: for every type of the CLI grammar except float and every value of it, the canonical tokens parse back to exactly "
-            "that value (induction over items/tuples; int() round trip for integers of any size); order independence and 'unmentioned fields keep their "
-            "default' for any number of distinct options; Optional[Literal]/List[Literal] refuted with a witness (known finding). float() is modelled "
-            "on exact decimals and covered by correspondence + instances, not by a general theorem. Converter tables and decision-chain orders are "
-            "regenerated; get_arg_options/postprocess are hand-modelled and tied by correspondence.",
-    "note": COMMON_NOTE + "argparse's slicing of one option group (nargs) and `--o=v` == `--o v` are modelled; float()/repr only on exact decimals.",
+    "text": "C02_leaf_roundtrip: for EVERY type of the CLI grammar (int, float, str, bool, Path, Enum, Literal, lists, fixed/variadic tuples, Optional of "
+            "these) and every well-typed value, the canonical tokens parse back to exactly that value (induction over items/tuples; int() round trip for "
+            "integers of any size via the stdlib decimal lemmas; float() round trip for every exact decimal); order independence and 'unmentioned fields "
+            "keep their default' for any number of distinct options; Optional[Literal]/List[Literal] refuted with a witness (known finding). Converter tables "
+            "and decision-chain orders are regenerated; get_arg_options/postprocess are hand-modelled and tied by correspondence.",
+    "note": COMMON_NOTE + "argparse's slicing of one option group (nargs) and `--o=v` == `--o v` are modelled; floats are exact decimals (repr through decimal.Decimal); exponent spellings by instances + correspondence.",
     "technique": T,
 }
 CLAIMED["C04"] = {
